@@ -11,6 +11,8 @@ import (
 func init() { register("C06", checkC06) }
 
 func checkC06(p *Program, r *Report) {
+	sharedStateRule(p, r, NewEffects(p), "C06.shared", []string{"wif.go", "base58/base58.go", "base58/base58check.go"})
+	r.Floor("C06.shared", 4)
 	r.Explain = "C06.len: every accepting return of DecodeWIF knows 37 ≤ len(decoded) ≤ 38 (merge-point proof over the length classification, which also has " +
 		"a rejecting default, see C02). C06.magic: the 'compressed' flag is set only where len == 38 and decoded[33] == 0x01. C06.checksum: acceptance lies " +
 		"behind the full 4-byte SHA256d comparison over decoded[:len−4] on each length alternative. C06.pad: the scalar bytes in WIF.String() are padded to " +
